@@ -467,6 +467,34 @@ func (l *Linter) resolveFileInclusion(
 	return statements
 }
 
+// withSnippetInclusion loads the Fastly managed snippet of an include statement in a block and hands
+// its statements to fn. Like a module, the snippet counts as being included until fn returns.
+func (l *Linter) withSnippetInclusion(
+	include *ast.IncludeStatement,
+	ctx *context.Context,
+	fn func(included []ast.Statement),
+) {
+
+	if slices.Contains(l.including, include.Module.Value) {
+		e := &LintError{
+			Severity: ERROR,
+			Token:    include.GetMeta().Token,
+			Message: fmt.Sprintf(
+				"include cycle detected: %s -> %s",
+				strings.Join(l.including, " -> "), include.Module.Value,
+			),
+		}
+		l.Error(e.Match(INCLUDE_STATEMENT_MODULE_LOAD_FAILED))
+		return
+	}
+	l.including = append(l.including, include.Module.Value)
+	defer func() {
+		l.including = l.including[:len(l.including)-1]
+	}()
+
+	fn(l.resolveSnippetInclusion(include, ctx, false))
+}
+
 // withFileInclusion loads the module of an include statement and hands its statements to fn.
 // The module counts as being included until fn returns.
 func (l *Linter) withFileInclusion(
